@@ -131,6 +131,26 @@ def check(col: Collector, tier: str):
                 ok = kinds[:1] == [("push", "block")] and kinds[-1:] == [("helper", "make_sequence_from_collection")] and len(kinds) == 2 \
                     and end.pushed[-1:] == ("loop",)
                 col.add("C01.R2", f.short, "opens-block-then-loop-and-leaves-them-open", ok, f"cursor actions {kinds}", f.loc)
+            # the elements: a vector of (end - begin) entries, filled with begin, begin+1, ... before the loop over it is opened
+            fn_ = f.node
+            iota = [c for c in ast.walk(fn_) if isinstance(c, ast.Call) and call_name(c) == "FunctionAST" and c.args and const_str(c.args[0]) == "std::iota"]
+            okr = False
+            why = "no std::iota call node"
+            if len(iota) == 1:
+                calls = [c for c in ast.walk(fn_) if isinstance(c, ast.Call) and src(c.func) == "ast.Call" and kwarg(c, "func") is iota[0]]
+                if len(calls) == 1:
+                    cvar = [n.targets[0].id for n in walk_no_nested(fn_) if isinstance(n, ast.Assign) and n.value is calls[0] and isinstance(n.targets[0], ast.Name)]
+                    a_ = kwarg(calls[0], "args")
+                    elts = [src(resolve_name(fn_, e.func.value))[:200] if isinstance(e, ast.Call) and call_name(e) == "as_ast" else src(e) for e in (a_.elts if isinstance(a_, ast.List) else [])]
+                    shape_ok = len(elts) == 3 and ".begin()" in elts[0] and ".end()" in elts[1] and "initial_value=self.get_rep(lower_bound)" in elts[2].replace(" ", "")
+                    emitted = [c for c in walk_no_nested(fn_) if isinstance(c, ast.Call) and call_name(c) == "add_statement" and cvar
+                               and f"self.get_rep({cvar[0]})" in src(c)]
+                    mk = [c for c in walk_no_nested(fn_) if isinstance(c, ast.Call) and call_name(c) == "make_sequence_from_collection"]
+                    okr = shape_ok and len(emitted) == 1 and len(mk) == 1 and emitted[0].lineno < mk[0].lineno
+                    why = f"iota arguments {elts}, emitted {len(emitted)} time(s)"
+            col.add("C01.R2", f.short, "range-elements-are-begin..end-1", okr,
+                    f"the vector behind Range must be filled by std::iota(v.begin(), v.end(), <begin>) emitted before the loop is opened ({why}); "
+                    "without it the sequence is (end - begin) zeros", f.loc)
         elif name == "call_First":
             for recs, end, st in live:
                 acts = cursor_actions(recs)
@@ -160,6 +180,22 @@ def check(col: Collector, tier: str):
                     "other columns inside that column's if/loop", f.loc)
         elif name == "get_rep":
             check_get_rep(col, f)
+            # the typestate treats a call without retain_scope as one that may move the cursor, and one with retain_scope=True as
+            # one that does not: that reading is only right if the parameter defaults to False and is forwarded as given
+            for gname in ("get_rep", "get_rep_value"):
+                g = methods.get(gname)
+                if g is None:
+                    continue
+                a = g.node.args
+                names = [x.arg for x in a.args]
+                dflt = dict(zip(names[len(names) - len(a.defaults):], a.defaults))
+                d = dflt.get("retain_scope")
+                ok = d is not None and isinstance(d, ast.Constant) and d.value is False
+                if gname == "get_rep_value":
+                    fw = [c for c in walk_no_nested(g.node) if isinstance(c, ast.Call) and call_name(c) == "get_rep"]
+                    ok = ok and len(fw) == 1 and (src(arg(fw[0], 1, "retain_scope")) == "retain_scope" if arg(fw[0], 1, "retain_scope") is not None else False)
+                col.add("C01.R2", g.short, "retain_scope-defaults-to-False-and-is-forwarded", ok,
+                        "handlers that open a loop or an if rely on the cursor staying where the nested translation left it unless they ask otherwise", g.loc)
         elif name == "code_fill_ttree":
             pass  # its placement logic is the runtime scope algebra (not decided); C05 checks the statements it emits
     check_container_elements(col, "C01.R2", methods)
